@@ -4,6 +4,7 @@ import numpy as np
 from vlib import strat as S, oracles as O, groups as GR, hkl as HK
 
 ID = "C05"
+SWITCH_OFF = 6        # every 6th case runs with xfab.CHECKS switched off (results must not depend on it)
 RULE = ("one unit per space-group setting (all 237 in every run); per setting Hypothesis draws a conforming cell (25% with "
         "orthogonal metric where the system allows obliqueness), a shell whose bounds are mid-gap between consecutive distinct "
         "sin(theta)/lambda values of the enumerated reciprocal lattice (<= ~1500 points in the sphere), smin 0 or mid-gap, call "
